@@ -1,6 +1,8 @@
 import GV.Model.Types
 import GV.Spec.GoTypes
 import GV.Proofs.MethodSet
+import GV.Model.C09Receiver
+import GV.Spec.C09MethodValue
 
 /-!
   C09 — dynamic types: identity, assertions, method sets, interface equality.
@@ -916,5 +918,71 @@ def wCmp : St :=
 
 theorem repaired_comparable_on_demand : LeafFlagsOk wCmp ∧
     ifaceEqual wCmp (.iface 23 (.tuple [.tuple [.ref 0]])) (.iface 23 (.tuple [.tuple [.ref 0]])) = .panic := by decide
+
+/-! ## 6. method values bind their receiver (`makeReceiver` + `$methodVal`) -/
+
+section MethodValues
+open GV.Recv GV.Spec.MethodValue
+
+/-- **method values bind a COPY** — unconditional since repair 28d396a: for every operand, every embedding path (any mix of
+    value and pointer embedding, any depth), every receiver kind and all heaps (at binding time / at call time) the emitted
+    receiver makes `f := x.M; …; f()` behave as Go: value receivers see the receiver as it was when the method value was
+    evaluated, pointer receivers share it, and a nil pointer on the path panics when Go does. -/
+theorem methodvalue_full (body : V → Int) (h0 h1 : Heap) (op : Operand) (path : List Step) (pr : Bool) (k : Kind) :
+    jsMethodValue body h0 h1 op path pr k = goMethodValue body h0 h1 op path pr := by
+  unfold jsMethodValue goMethodValue jsBind goBind makeReceiver
+  cases pr <;> cases k <;> cases hl : lastIsPtr op path <;> simp_all
+
+/-- the rule itself: the result of a value-receiver method value does not depend on anything that happens to the heap after
+    the method value was evaluated — along ANY embedding path -/
+theorem methodvalue_binds_copy (body : V → Int) (h0 h1 h1' : Heap) (op : Operand) (path : List Step) (k : Kind) :
+    jsMethodValue body h0 h1 op path false k = jsMethodValue body h0 h1' op path false k := by
+  rw [methodvalue_full body h0 h1 op path false k, methodvalue_full body h0 h1' op path false k]
+  unfold goMethodValue goBind
+  simp only [Bool.false_eq_true, if_false]
+  cases (start op).bind (resolve h0 · path) <;> rfl
+
+def bodyInt : V → Int | .int n => n | _ => -1
+
+/-- forwarding methods (types.js `synthesizeMethod`): a promoted pointer-receiver method is always invoked on something that
+    carries it — the field's object, or the field's address for array/int/… fields embedded by value -/
+theorem forwarder_receiver_has_method (r : FieldRep) : hasPtrMethods (forwarderRecv true r) = true := by
+  cases r <;> rfl
+
+/-! #### repaired defects (rounds 6-7): non-struct value receiver through a pointer; forwarder handing a wrapped value -/
+
+/-- old scheme: `type N int; func (n N) Val() int; p := &n (=1); f := p.Val; *p = 2; f()` gave 2 (Go: 1) -/
+theorem repaired_methodvalue_through_pointer :
+    callBound bodyInt [.int 0, .int 2] (jsBindOld [.int 0, .int 1] (.ptr 1) [] false .basic) = .val 2 ∧
+    jsMethodValue bodyInt [.int 0, .int 1] [.int 0, .int 2] (.ptr 1) [] false .basic = .val 1 ∧
+    (makeReceiverOld true false .basic).wrap = false ∧ (makeReceiver true false .basic).wrap = true := by decide
+
+/-- old forwarder (before 80acc7c): pointer-receiver methods of array/int/… fields embedded by value got a wrapped VALUE,
+    which does not carry them (`v[m.prop] is not a function`) -/
+theorem repaired_forwarder_counterexample : hasPtrMethods (forwarderRecvOld true .native) = false := rfl
+
+
+/-- the emitted shape the structure tie compares: `$clone` is present exactly when the METHOD has a value receiver of
+    struct or array type — whatever the operand and the path (`isPointer`) are -/
+theorem clone_iff (isPointer pr : Bool) (k : Kind) :
+    (makeReceiver isPointer pr k).clone = true ↔ (pr = false ∧ k ≠ .basic) := by
+  cases isPointer <;> cases pr <;> cases k <;> simp [makeReceiver]
+
+/-- why the tie matters: deciding the clone from the type of the receiver EXPRESSION instead (no clone when it is a
+    pointer) breaks the rule for struct receivers reached through a pointer -/
+def jsBindNoCloneThroughPtr (h0 : Heap) (op : Operand) (path : List Step) : Option Bound :=
+  if lastIsPtr op path then (resolveToPtr h0 op path).map .ptrval
+  else ((start op).bind (resolve h0 · path)).map fun l => .copy (read h0 l)
+
+def bodyFst : V → Int | .tup (.int n :: _) => n | _ => -1
+
+theorem clone_from_operand_type_is_wrong :
+    callBound bodyFst [.int 0, .tup [.int 2]] (jsBindNoCloneThroughPtr [.int 0, .tup [.int 1]] (.ptr 1) []) ≠
+    goMethodValue bodyFst [.int 0, .tup [.int 1]] [.int 0, .tup [.int 2]] (.ptr 1) [] false := by decide
+
+example : jsMethodValue bodyFst [.int 0, .tup [.ptr 2], .tup [.tup [.int 3]]] [.int 0, .tup [.ptr 2], .tup [.tup [.int 4]]]
+      (.ptr 1) [.ptr 0, .val 0] false .struct = .val 3 := by decide
+
+end MethodValues
 
 end GV.Props.C09
